@@ -48,6 +48,7 @@ PF = gen.Profile(
     max_slots=40,
     teams=True,
     res_groups=False,
+    year_end_holidays=True,
 )
 PF_SUB = replace(PF, subslot=True, odd_eff=True, max_slots=12)
 
